@@ -92,6 +92,19 @@ Definition chk_wal (t : tabs) (cfg : wcfg) (ops : list wop) (vis : list (list (Z
   let d := wdrop w in
   ok && files_eqb (d_files d) final && meta_eqb (d_meta d) meta && Bool.eqb (d_tmp d) tmp
   && rrecs_eqb (recover (tcrc t) (tdec t) d) rec.
+(** [syn]: after every operation, for each log file the size it had when it was last fsynced
+    (0 = never), as observed by the harness, which interposes fsync in its own process *)
+Fixpoint chk_wal_syn_steps (t : tabs) (cfg : wcfg) (w : wstate) (ops : list wop) (syn : list (list (Z * Z))) : bool :=
+  match ops, syn with
+  | [], [] => true
+  | o :: r, v :: vr =>
+      let w1 := wstep (tcrc t) (tenc t) cfg w o in
+      list_eqb zz_eqb (map (fun sf => (fst sf, f_synced (snd sf))) (d_files (w_disk w1))) v
+      && chk_wal_syn_steps t cfg w1 r vr
+  | _, _ => false
+  end.
+Definition chk_wal_syn (t : tabs) (cfg : wcfg) (ops : list wop) (syn : list (list (Z * Z))) : bool :=
+  chk_wal_syn_steps t cfg (wopen empty_disk) ops syn.
 (** synced lengths the model assigns to the files at the end (shown for diagnostics and
     compared where the harness can observe them) *)
 Definition wal_synced (t : tabs) (cfg : wcfg) (ops : list wop) : list (Z * Z) :=
@@ -184,21 +197,21 @@ Definition chk_copy (m : store) (o : cobs) : bool :=
   | _ => false
   end.
 (** [src_cur]/[src_lat]: dumps of the source after all copies were taken (source unchanged);
-    [sn]: the exported bytes decoded by the harness; [imp], [mem], [sav]: import of the exported
-    bytes, to_memory(), save()+open().  save() enumerates the source exactly as export does (hash-map
+    [sn]: the exported bytes decoded by the harness; [imp], [mem], [sav], [oim]: import of the exported
+    bytes, to_memory(), save()+open(), open_in_memory() of a copy of the saved directory.  save() enumerates the source exactly as export does (hash-map
     order, not modelled), so the model saves the store rebuilt from the observed enumeration [sn],
     which [snap_eqb] ties to the model's own snapshot as a set *)
 Definition chk_snap (t : tabs) (cfg : wcfg) (os : list op) (src_cur src_lat : gdump) (sn : snapshot)
-           (imp mem : cobs) (sav : cobs) : bool :=
+           (imp mem : cobs) (sav oim : cobs) : bool :=
   let s := fst (run_store os) in
   dump_eqb (dump s (s_epoch s)) src_cur && dump_eqb (dump s latest) src_lat
   && snap_eqb (snapshot_of s) sn
   && chk_copy (build sn) imp
   && chk_copy (to_memory s) mem
-  && match save_open (tcrc t) (tenc t) (tdec t) cfg (build sn), sav with
-     | ROk m, COk _ _ _ _ => chk_copy m sav
-     | RErr, CErr => true
-     | _, _ => false
+  && match save_open (tcrc t) (tenc t) (tdec t) cfg (build sn), sav, oim with
+     | ROk m, COk _ _ _ _, COk _ _ _ _ => chk_copy m sav && chk_copy (to_memory m) oim   (* open_in_memory = open; to_memory; close *)
+     | RErr, CErr, CErr => true
+     | _, _, _ => false
      end.
 Definition kc07_1 (os : list op) : bool := k07_1 (fst (run_store os)).
 
